@@ -118,6 +118,7 @@ def main():
     sum_and_index()
     keytolist()
     binary_ops()
+    minmax_arguments()
     print('EXPR-COUNT ' + json.dumps(count))
     print('EXPR-JSON ' + json.dumps(fails))
 
@@ -452,6 +453,84 @@ def binary_ops():
                                          'result changed by': 'f *= 3; '
                                          'g *= 0.5', 'value': list(
                                              r.value()), 'before': rv})
+
+
+def minmax_arguments():
+    """max accepts numbers, column matrices, variables, affine and convex
+    functions (min: concave) and refuses the others with an exception; what
+    it accepts is flagged convex (concave) and evaluates to the componentwise
+    maximum (minimum)"""
+    from cvxopt.modeling import max as mmax, min as mmin
+    x = variable(2, 'x')
+    y = variable(2, 'y')
+    x.value = matrix([1.0, 5.0])
+    y.value = matrix([3.0, 2.0])
+    cvx = lambda: mmax(x, y)            # convex, not affine
+    ccv = lambda: mmin(x, y)            # concave, not affine
+    aff = lambda: 2.0 * x + 1.0
+    bad = [('max(min(x,y), x)', lambda: mmax(ccv(), x)),
+           ('max(x, min(x,y))', lambda: mmax(x, ccv())),
+           ('max(min(x,y), 0.0)', lambda: mmax(ccv(), 0.0)),
+           ('max(min(x,y))', lambda: mmax(ccv())),
+           ('max(2x+1, -max(x,y), y)', lambda: mmax(aff(), -cvx(), y)),
+           ('min(max(x,y), x)', lambda: mmin(cvx(), x)),
+           ('min(1.0, max(x,y))', lambda: mmin(1.0, cvx())),
+           ('min(max(x,y))', lambda: mmin(cvx())),
+           ('min(y, -min(x,y))', lambda: mmin(y, -ccv()))]
+    w = variable(3, 'w')
+    w.value = matrix([7.0, 8.0, 9.0])
+    bad += [('max(x, w) (lengths 2 and 3)', lambda: mmax(x, w)),
+            ('min(x, w) (lengths 2 and 3)', lambda: mmin(x, w)),
+            ("max(x, 'a')", lambda: mmax(x, 'a')),
+            ('max(x, None)', lambda: mmax(x, None)),
+            ('min(2x+1, w, 0.0)', lambda: mmin(aff(), w, 0.0)),
+            ('max([x, w])', lambda: mmax([x, w]))]
+    for nm, mk in bad:
+        count['minmax'] = count.get('minmax', 0) + 1
+        try:
+            f = mk()
+        except Exception:
+            continue
+        fail('minmax-accepts', {'expression': nm, 'accepted': True,
+                                '(convex, concave)': (f._isconvex(),
+                                                      f._isconcave())})
+    good = [('max(max(x,y), x, 2.0)', lambda: mmax(cvx(), x, 2.0), 'x',
+             lambda a, b: builtins.max(builtins.max(a, b), a, 2.0)),
+            ('max(2x+1, y)', lambda: mmax(aff(), y), 'x',
+             lambda a, b: builtins.max(2 * a + 1, b)),
+            ('min(min(x,y), -max(x,y), 4.0)', lambda: mmin(ccv(), -cvx(),
+                                                           4.0), 'v',
+             lambda a, b: builtins.min(builtins.min(a, b),
+                                       -builtins.max(a, b), 4.0)),
+            ('min(x, 2x+1)', lambda: mmin(x, aff()), 'v',
+             lambda a, b: builtins.min(a, 2 * a + 1))]
+    # a single list or tuple of arguments is the same as the arguments
+    for nm, mk in (('max([x, y, 2.0])', lambda: mmax([x, y, 2.0])),
+                   ('max((x, y, 2.0))', lambda: mmax((x, y, 2.0)))):
+        count['minmax'] = count.get('minmax', 0) + 1
+        try:
+            f = mk()
+            want = [builtins.max(a, b, 2.0) for a, b in zip(
+                list(x.value), list(y.value))]
+            if any(abs(u - v_) > 1e-12 for u, v_ in zip(list(f.value()),
+                                                        want)):
+                fail('minmax-accepts', {'expression': nm, 'value': list(
+                    f.value()), 'expected': want})
+        except Exception as e:
+            fail('minmax-accepts', {'expression': nm, 'refused': repr(e)})
+    for nm, mk, cv, ref in good:
+        count['minmax'] = count.get('minmax', 0) + 1
+        try:
+            f = mk()
+        except Exception as e:
+            fail('minmax-accepts', {'expression': nm, 'refused': repr(e)})
+            continue
+        want = [ref(a, b) for a, b in zip(list(x.value), list(y.value))]
+        flags = (f._isconvex(), f._isconcave())
+        if flags != {'x': (True, False), 'v': (False, True)}[cv] or any(
+                abs(u - w) > 1e-12 for u, w in zip(list(f.value()), want)):
+            fail('minmax-accepts', {'expression': nm, 'value': list(
+                f.value()), 'expected': want, '(convex, concave)': flags})
 
 
 def aliasing():
